@@ -296,6 +296,31 @@ def search(ctx):
         if len(samples) < 3: samples.append({'family': fam, 'receiver': sl.obj_json(o), 'length': L, 'n': ns})
         for k, v in m.items(): measured[k] = max(measured.get(k, 0.0), v)
         fails += f
+    # ask, edit in place, ask again: lengths and samplings must be those of a freshly built object with the same control points
+    import gen as _g
+    from beziers.path import BezierPath as _BP
+    for _ in range(ctx.n(40, 800)):
+        s0 = _g.segment(rng, order=rng.choice([3, 4]), fam='float')[0]
+        if not (s0.length >= MIN_LEN): continue
+        n = max(1, int(s0.length / 8))
+        qs = {'length': lambda x: x.length, 'lengthAtTime(1.0)': lambda x: x.lengthAtTime(1.0), 'lengthAtTime(0.5)': lambda x: x.lengthAtTime(0.5),
+              'regularSampleTValue': lambda x: x.regularSampleTValue(n)}
+        ff = _g.freshness(rng, s0, qs)
+        ev += 1; dist['stale-state/segment'] = dist.get('stale-state/segment', 0) + 1
+        if ff: fails.append({'class': 'C16-stale-state', 'what': ff[0], 'input': None, 'observed': ff[:3], 'expected': 'the answers of a freshly constructed segment with the same control points'})
+        # the same through a path: measure, round() in place, measure again
+        segs = [_g.fresh_copy(s0)]
+        path = _BP.fromSegments(segs); path.closed = False
+        try:
+            path.length; path.lengthAtTime(1.0)
+            path.round()
+            fresh = _BP.fromSegments([_g.fresh_copy(x) for x in path.asSegments()]); fresh.closed = False
+            a = (path.length, path.lengthAtTime(1.0), path.lengthAtTime(0.5)); b = (fresh.length, fresh.lengthAtTime(1.0), fresh.lengthAtTime(0.5))
+        except Exception as e:
+            a, b = ('raised', type(e).__name__), None
+        ev += 1; dist['stale-state/path-round'] = dist.get('stale-state/path-round', 0) + 1
+        if a != b: fails.append({'class': 'C16-stale-state', 'what': f'after length queries and round(), (length, lengthAtTime(1.0), lengthAtTime(0.5)) = {a} but a fresh path with the same segments gives {b}',
+                                 'input': None, 'observed': [a, b], 'expected': 'equal'})
     return {'evaluations': ev, 'distinct_nontrivial': len(seen), 'failures': fails, 'distribution': dist, 'samples': samples, 'measured': measured}
 
 
